@@ -64,6 +64,10 @@ func goTestEnv() []string {
 }
 
 func nativeReplay(spec *Unit, p *Program, v *Violation, replayPath string) (bool, string) {
+	attempts := 1
+	if hs := findHarness(spec, v.Harness); hs.NativeAttempts > 1 {
+		attempts = hs.NativeAttempts
+	}
 	dir := workDir()
 	defer os.RemoveAll(dir)
 	pdir := filepath.Join(repoDir, spec.Package)
@@ -73,7 +77,17 @@ func nativeReplay(spec *Unit, p *Program, v *Violation, replayPath string) (bool
 import "testing"
 
 func TestVerifReplay(t *testing.T) {
-	failed, diverged, panicked, assumeFailed := verifRun(%s)
+	var failed []string
+	var diverged string
+	var panicked interface{}
+	var assumeFailed bool
+	for attempt := 0; attempt < %d; attempt++ {
+		verifSt.pos, verifSt.failed, verifSt.diverged = 0, nil, ""
+		failed, diverged, panicked, assumeFailed = verifRun(%s)
+		if len(failed) > 0 {
+			break
+		}
+	}
 	if diverged != "" {
 		t.Logf("VERIF-DIVERGED %%s", diverged)
 	}
@@ -87,7 +101,7 @@ func TestVerifReplay(t *testing.T) {
 		t.Fatalf("VERIF-FAILED %%v", failed)
 	}
 }
-`, pname, v.Harness)
+`, pname, attempts, v.Harness)
 	extra := nativeRewrites(spec)
 	extra[filepath.Join(pdir, "zz_verif_replay_test.go")] = []byte(test)
 	ovp := writeOverlay(dir, p.overlay, extra)
@@ -235,7 +249,7 @@ func validateAgainstNative(p *Program, u *Unit, results []*HarnessResult, tier s
 
 func runConcrete(p *Program, u *Unit, hs *HarnessSpec, tier string, vals []replayVal) (obs, failed []string, end pathEnd) {
 	ts := u.tierFor(hs, tier)
-	solver, err := NewSolver([]string{"z3", "-in"}, 10000)
+	solver, err := NewSolver(solverArgv(), 10000)
 	if err != nil {
 		return nil, nil, pathEnd{"unsupported", err.Error()}
 	}
